@@ -85,6 +85,49 @@ Theorem C10_gap_refuted_small_keepalive :
     /\ next_step (s_ob k10_session) = None.
 Proof. exact keepalive_gap_refuted_small_k. Qed.
 
+From Minimq Require Import Machine Run WireInv Wire PingQuiet Healthy Owed Framing PingAt.
+
+(* ---- the instants, at the level of the machine (virtual clock) ----
+   While the application waits in poll() on a behaving transport with nothing to send and nothing arriving, the wait sleeps
+   exactly until the PINGREQ deadline `d` (= last outbound activity + K - min(5 s, K/2) <= last activity + K), and AT `d`
+   the PINGREQ is queued, written and flushed (nothing else reaches the wire), the round-trip timer is armed for d + 5 s,
+   and no further PINGREQ is due. *)
+Theorem C10_poll_pings_at_deadline : forall w d,
+  Hc w -> rdata (rd w) = [] -> rplen (rd w) = None -> 1 <= rcap (rd w) ->
+  next_step (s_ob (w_sess w)) = None ->
+  rt_next_ping (s_rt (w_sess w)) = Some d -> w_now w < d -> rt_ping_timeout (s_rt (w_sess w)) = None ->
+  w_inq w = [] -> w_waits w < MAX_WAITS ->
+  exists w', op_poll FUEL w = (w', ODone None) /\ w_now w' = d /\ w_wire w' = w_wire w ++ [192; 0] /\
+    rt_ping_timeout (s_rt (w_sess w')) = Some (d + ROUND_TRIP_TIMEOUT_MS) /\
+    PQ w' /\ next_step (s_ob (w_sess w')) = None.
+Proof. exact poll_pings_at_deadline. Qed.
+
+(* An unanswered PINGREQ: the wait ends with the disconnected error exactly when the round-trip bound expires - not
+   earlier (the clock reads `t`), not later - the handle is dead and nothing more was written. *)
+Theorem C10_poll_times_out_at_bound : forall w t,
+  Hc w -> rdata (rd w) = [] -> rplen (rd w) = None -> 1 <= rcap (rd w) ->
+  next_step (s_ob (w_sess w)) = None ->
+  rt_ping_timeout (s_rt (w_sess w)) = Some t -> w_now w < t ->
+  (forall d, rt_next_ping (s_rt (w_sess w)) = Some d -> t <= d) ->
+  w_inq w = [] -> w_waits w < MAX_WAITS ->
+  exists w', op_poll FUEL w = (w', OFail EDisconnected) /\ w_now w' = t /\ w_live w' = false /\ w_wire w' = w_wire w.
+Proof. exact poll_times_out_at_bound. Qed.
+
+(* computed: keep-alive 30 s, a broker that stays silent after CONNACK: PINGREQ at 25 s, disconnected at 30 s *)
+Theorem C10_ping_example :
+  w_now ex_ka = 0 /\ rt_next_ping (s_rt (w_sess ex_ka)) = Some 25000 /\
+  snd (op_poll FUEL ex_ka) = ODone None /\ w_now ex_ka2 = 25000 /\ w_wire ex_ka2 = w_wire ex_ka ++ [192; 0] /\
+  rt_ping_timeout (s_rt (w_sess ex_ka2)) = Some 30000 /\ rt_next_ping (s_rt (w_sess ex_ka2)) = Some 50000 /\
+  snd (op_poll FUEL ex_ka2) = OFail EDisconnected /\ w_now (fst (op_poll FUEL ex_ka2)) = 30000 /\
+  w_live (fst (op_poll FUEL ex_ka2)) = false.
+Proof. exact ping_example. Qed.
+
+Theorem C10_ping_hyps_met :
+  Hc ex_ka /\ rdata (rd ex_ka) = [] /\ rplen (rd ex_ka) = None /\ 1 <= rcap (rd ex_ka) /\
+  next_step (s_ob (w_sess ex_ka)) = None /\ rt_next_ping (s_rt (w_sess ex_ka)) = Some 25000 /\ w_now ex_ka < 25000 /\
+  rt_ping_timeout (s_rt (w_sess ex_ka)) = None /\ w_inq ex_ka = [] /\ w_waits ex_ka < MAX_WAITS.
+Proof. exact ping_hyps_met. Qed.
+
 Print Assumptions C10_next_ping_within_keepalive.
 Print Assumptions C10_ping_when_due.
 Print Assumptions C10_ping_only_when_due.
@@ -99,3 +142,7 @@ Print Assumptions C10_service_disconnects.
 Print Assumptions C10_pingresp_clears.
 Print Assumptions C10_long_keepalive_never_blocked.
 Print Assumptions C10_gap_refuted_small_keepalive.
+Print Assumptions C10_poll_pings_at_deadline.
+Print Assumptions C10_poll_times_out_at_bound.
+Print Assumptions C10_ping_example.
+Print Assumptions C10_ping_hyps_met.
